@@ -44,6 +44,7 @@ func checkC02(c *Check) {
 
 	c02StoreNew(c)
 	c02Unbuffered(c)
+	c02CommitLast(c)
 	c02UpdateMeta(c)
 	c02Recovery(c)
 	c02TryDelivery(c)
@@ -954,4 +955,36 @@ func c02Unbuffered(c *Check) {
 			return msg
 		}())
 	}
+}
+
+// R1d: the *.meta file is the commit record of a spool entry: recovery schedules a message for every record whose header
+// and body exist (R3). The record is therefore written last – after the header and the body file were synced. Written
+// first ("so that an interrupted store can be cleaned up"), a stop while the body is still being copied leaves a
+// complete-looking entry: after the restart a message that was never accepted is delivered with a truncated body.
+func c02CommitLast(c *Check) {
+	c.Rule("R1d", "storeNewMessage: the metadata (commit record) is written only after the header file and the body file were synced", 1)
+	r := c.need("R1d", queueRel, "Queue", "storeNewMessage")
+	if r == nil {
+		return
+	}
+	metaW := r.Calls(calling("~/" + queueRel + ".Queue.updateMetadataOnDisk"))
+	msg := ""
+	if len(metaW) == 0 {
+		msg = "undecided: no metadata write"
+	}
+	roles := map[string][]Pt{}
+	for _, pt := range r.Calls(isSync) {
+		call := r.CallAt(pt, isSync)
+		roles[fileRoleOf(r, recvObj(r.Info, call))] = append(roles[fileRoleOf(r, recvObj(r.Info, call))], pt)
+	}
+	for _, role := range []string{".header", ".body"} {
+		if len(roles[role]) == 0 {
+			msg = "undecided: no Sync of the " + role + " file"
+			continue
+		}
+		if ok, w := r.MustPass(r.Entry(), true, isPt(metaW), isPt(roles[role])); !ok && msg == "" {
+			msg = "the commit record (*.meta) can be written before the " + role + " file is synced: a stop in between leaves a record whose header and body exist but are incomplete – recovery delivers a message that was never accepted, with a truncated body: " + w
+		}
+	}
+	c.Hold("R1d", "storeNewMessage:commit-record-last", r.FI.Decl.Pos(), msg == "", msg)
 }
